@@ -326,6 +326,7 @@ SPECIALS = [
     'r = {k: v for k, v in d.items() if k if v}\ns = {a for a.b in c}\ng = (i for i in j for j in i)\n',
     '*(a, b), c = range(3)\nfor *(a, b), c in []: pass\n[a for *(a, b), c in []]\nwith x as (*(a, b), c): pass\n',
     'f = lambda a, *b, c=1, **d: a + c\nx = (lambda: y)()\n',
+    'f = lambda *, k: k\ng = lambda a, /, b=1, *, k, l=2, **kw: (a, k)\ndef h(a, /, *, k, l=3): return k\nasync def i(*, k): return k\n',
     'match p:\n    case [a, b] if a:\n        print(b)\n    case {"k": v, **rest}:\n        pass\n    case C(x=1) | D():\n        pass\n',
     'def f[T: int](x: T) -> T:\n    return x\nclass K[T]:\n    pass\ntype A[T] = list[T]\n',
     'def f():\n    @d\n    def g(): pass\n    return g\nfor i in x:\n    @d\n    class Q: pass\n',
